@@ -550,7 +550,18 @@ class Interp:
             return None, None
         loops = loop_nodes(fr.func.node)
         ordinal = next((i for i, n in enumerate(loops) if n is node), None)
-        spec = self.env.loop_specs.get((fr.func.ident, ordinal))
+        cur = self.env.current
+        spec = None
+        if cur is not None:
+            # the contract being verified takes precedence for its own target (several contracts may describe one function)
+            if fr.func.ident == cur.target and ordinal in cur.loops:
+                spec = cur.loops[ordinal]
+            elif (fr.func.ident, ordinal) in cur.loops:
+                spec = cur.loops[(fr.func.ident, ordinal)]
+            elif fr.func.ident == cur.target and cur.loops.get('__no_global__'):
+                return ordinal, None
+        if spec is None:
+            spec = self.env.loop_specs.get((fr.func.ident, ordinal))
         return ordinal, spec
 
     def st_While(self, st, fr):
@@ -750,7 +761,23 @@ class Interp:
         return self.eval(self.parse_src(src), self.spec_frame(fr))
 
     def formula_src(self, src, fr):
-        return self.formula(self.parse_src(src), self.spec_frame(fr))
+        """A contract clause as a z3 Bool.  First attempt: one merged formula without forking (total semantics of
+        the SMT terms under the clause's own guards); only if some sub-expression needs a fork (calls into spec
+        functions with loops, partial library operations) the clause is evaluated with path-splitting and/or/implies."""
+        node = self.parse_src(src)
+        if not self.noforking:
+            saved_pc = len(self.p.pc)
+            self.noforking += 1
+            try:
+                return self.formula(node, self.spec_frame(fr))
+            except Unsupported as e:
+                if 'fork inside' not in str(e) and 'pure' not in str(e):
+                    pass
+            except PyExc:
+                pass
+            finally:
+                self.noforking -= 1
+        return self.formula(node, self.spec_frame(fr))
 
     def formula(self, node, fr):
         """Evaluate a boolean contract expression to a z3 Bool.  `implies`, `and`, `or` at this level are
